@@ -19,16 +19,22 @@ RULE = (
     "read of the sequence depends on its own line only: absent tokens -> None, surplus tokens ignored). The same "
     "sequences are also read through RegisterFile.read with a delimited register class. In-domain (no character of "
     "the delimiter in a rendering) is decided by Spec.C11.inDomain. non-trivial = the sequence contains a line with "
-    "fewer tokens than fields after a longer one, or a non-missing value; distinct by full case."
+    "fewer tokens than fields after a longer one, or a non-missing value; distinct by full case. One case in five has a "
+    "delimiter made of white space only (TAB, a blank, runs and mixtures of the two), used like any other delimiter — empty "
+    "tokens at the start and in the middle of such a line keep their places — and, Spec.C11.inDomain leaving these "
+    "delimiters out, admitted when the model admits the same layout and values under a stand-in one-character delimiter "
+    "and the tokens it renders satisfy Spec.C11.tokensOk for the real one."
 )
 ASSUMPTIONS = [
     "no rendering contains the delimiter as a substring (the property's wording), and the self-overlapping corner is excluded: splitting the joined tokens must give the tokens back (Spec.C11.tokensOk)",
-    "the delimiter is not made of white space only (tokens are stripped)",
+    "delimiters made of white space only are outside Spec.C11.inDomain (and so outside Props.C11.main_full): for them the guard is decided per case (field clauses by the model under a stand-in delimiter, the token clauses of Spec.C11.tokensOk re-stated in the harness on the model's tokens) and Spec.C11.holds is evaluated per case on model and code",
 ] + c01.ASSUMPTIONS
 TRUSTED = c01.TRUSTED
-NOT_THEOREMS = ['nothing within the domain: Props.C11.main_full is the whole of Spec.C11.holds for every layout, value list and delimiter admitted by Spec.C11.inDomain (delimiters with blanks included: the guard decides that no token contains the delimiter and that splitting the joined tokens gives them back; Props.C11.split_snoc carries that over to the written and to the padded line); the per-token law is proved for every kind (tokLaw_of_domain)']
+NOT_THEOREMS = ['nothing within the domain: Props.C11.main_full is the whole of Spec.C11.holds for every layout, value list and delimiter admitted by Spec.C11.inDomain (delimiters with blanks included: the guard decides that no token contains the delimiter and that splitting the joined tokens gives them back; Props.C11.split_snoc carries that over to the written and to the padded line); the per-token law is proved for every kind (tokLaw_of_domain)', 'delimiters made of white space only (TAB, blanks): not admitted by Spec.C11.inDomain, Spec.C11.holds evaluated per case on the cycle of the model and on the observation of the code']
 EXHAUSTIVE = {"quick": False, "thorough": False}
 DELIMS = [";", ",", "|", "\t", "::", ";;", ";", ", ", "; ", " | ", " :", "\t;"]
+# delimiters made of white space only: columns separated by TAB or by blanks
+WS_DELIMS = ["\t", "\t", "\t", " ", " ", "\t\t", "  ", " \t", "\t "]
 
 
 def pad_line(written, d, pads):
@@ -38,6 +44,86 @@ def pad_line(written, d, pads):
         a, b = pads[i] if i < len(pads) else (0, 0)
         out.append(" " * a + t + " " * b)
     return d.join(out) + "\n"
+
+
+# ------------------------------------------------------------------ delimiters made of white space only
+# Spec.C11.inDomain = non-empty delimiter, as many values as fields, NOT all white space, every (field, value) in
+# the domain of C01, Spec.C11.tokensOk.  A TAB or a blank is a delimiter like any other for the property and for
+# the model (cycle / holds are computed for every delimiter); only the guard leaves them out.  For such a delimiter
+# the remaining clauses are decided here: the field clauses by the model itself, asked about the same layout and
+# values under a one-character stand-in delimiter that occurs nowhere in the case (its reply also carries the
+# model's tokens, joined by the stand-in), the token clauses (Spec.C11.tokensOk) on those tokens.
+_WS_DOMAIN = {}
+STAND_INS = ["\x01", "\x02", "\x03", "\xa6"]
+
+
+def ws_only(d):
+    return d != "" and all(c.isspace() for c in d)
+
+
+def _ws_key(case):
+    return json.dumps([case["fields"], case["values"], case["delimiter"]], sort_keys=True)
+
+
+def _stand_in(case):
+    used = set()
+    for v in case["values"]:
+        if isinstance(v, dict) and "s" in v:
+            used.update(v["s"])
+    for fd in case["fields"]:
+        used.update(fd.get("sep", []))
+        used.update(fd.get("fmt", []))
+        for f in fd.get("fmts", []):
+            used.update(f)
+    for c in STAND_INS:
+        if ord(c) not in used:
+            return c
+    return None
+
+
+def tokens_ok(ts, d):
+    """Spec.C11.tokensOk"""
+    return all(d not in t and "\n" not in t for t in ts) and "\n" not in d and (not ts or d.join(ts).split(d) == ts)
+
+
+def ws_prefetch(cases):
+    """decides the domain of all the white-space-delimited cases among `cases` with ONE call of the driver"""
+    import core
+
+    todo, seen = [], set()
+    for c in cases:
+        try:
+            if not ws_only(codec.dec_str(c["delimiter"])):
+                continue
+            k = _ws_key(c)
+        except Exception:
+            continue
+        if k in _WS_DOMAIN or k in seen:
+            continue
+        seen.add(k)
+        s = _stand_in(c)
+        if s is None or len(c["fields"]) != len(c["values"]):
+            _WS_DOMAIN[k] = False
+            continue
+        todo.append((k, c, s))
+    if not todo:
+        return
+    reqs = [{"op": "c11", "fields": c["fields"], "values": c["values"], "delimiter": codec.enc_str(s), "pads": [[0, 0]] * len(c["fields"]), "lines": []} for _, c, s in todo]
+    for (k, c, s), r in zip(todo, core.driver_batch(reqs)):
+        ok = False
+        if r.get("indomain") and r.get("padded") is not None:
+            joined = codec.dec_str(r["padded"])
+            if joined.endswith("\n"):
+                ts = joined[:-1].split(s)
+                ok = len(ts) == len(c["fields"]) and tokens_ok(ts, codec.dec_str(c["delimiter"]))
+        _WS_DOMAIN[k] = ok
+
+
+def ws_domain(case):
+    k = _ws_key(case)
+    if k not in _WS_DOMAIN:
+        ws_prefetch([case])
+    return _WS_DOMAIN.get(k, False)
 
 
 def run_impl(case):
@@ -62,6 +148,10 @@ def run_impl(case):
         return codec.enc_exc(e)
 
 
+def body(line):
+    return line[:-1] if line.endswith("\n") else line
+
+
 def register_reads(case):
     """the same sequence of lines through RegisterFile.read with ONE delimited register class"""
     from cfinterface.components.line import Line
@@ -79,7 +169,8 @@ def register_reads(case):
     class F(RegisterFile):
         REGISTERS = [R]
 
-    content = "".join("ID" + d + codec.dec_str(l).replace("\n", " ") + "\n" for l in case["lines"])
+    # (the line's own newline is dropped, not turned into a blank: a blank may be the delimiter)
+    content = "".join("ID" + d + body(codec.dec_str(l)).replace("\n", " ") + "\n" for l in case["lines"])
     f = F.read(content)
     return [[codec.enc_val(x) for x in r.data] for r in f.data.of_type(R)]
 
@@ -96,7 +187,10 @@ def judge(case, obs, resp):
         return {"status": "error", "why": resp["error"]}
     if "harness_exc" in obs:
         return {"status": "error", "why": f"harness: {obs['harness_exc']} {obs.get('msg')}"}
-    if not resp["indomain"]:
+    indomain = resp["indomain"]
+    if not indomain and ws_only(codec.dec_str(case["delimiter"])):
+        indomain = ws_domain(case)
+    if not indomain:
         return {"status": "skip", "why": "outside the domain"}
     if not resp["model_holds"]:
         return {"status": "error", "why": f"the MODEL's cycle violates Spec.C11.holds: {show(resp.get('model'))}"}
@@ -153,6 +247,10 @@ def features(case, obs):
         f.append("line_short" if c < n else ("line_long" if c > n else "line_exact"))
     if case.get("via_register"):
         f.append("via_register_file")
+    if ws_only(codec.dec_str(case["delimiter"])):
+        f.append("delim_white_space_only")
+        if any(v is None for v in case["values"][:-1]):
+            f.append("ws_delim_missing_value_not_last")
     return f
 
 
@@ -178,7 +276,7 @@ TOKS = ["1", "22", "-3", "abc", "x y", "", " ", "1.5", "2,5", "1e3", "2021/02/03
 
 def random_case(rng):
     n = rng.randrange(1, 7)
-    d = rng.choice(DELIMS)
+    d = rng.choice(WS_DELIMS) if rng.random() < 0.2 else rng.choice(DELIMS)
     fields, values, fam = [], [], []
     for _ in range(n):
         fd, v = c01.make_field(rng, rng.choice([0, 0, 3]), fam)
@@ -229,11 +327,24 @@ def cases_of(chunk):
         yield from corpus_cases()
     else:
         rng = random.Random(chunk["seed"])
-        for _ in range(chunk["n"]):
-            yield random_case(rng)
+        cases = [random_case(rng) for _ in range(chunk["n"])]
+        try:
+            ws_prefetch(cases)
+        except Exception:
+            pass  # decided case by case in judge
+        yield from cases
 
 
 def shrinks(case):
+    cands = list(_shrinks(case))
+    try:
+        ws_prefetch(cands)
+    except Exception:
+        pass
+    yield from cands
+
+
+def _shrinks(case):
     ls = case["lines"]
     for i in range(len(ls)):
         yield {**case, "lines": ls[:i] + ls[i + 1 :]}
